@@ -380,6 +380,8 @@ type registration struct {
 	staleN int
 }
 
+const simTimeoutCap = time.Duration(1) << 58
+
 type SimTrigger struct {
 	n    *Node
 	ch   chan *interfaces.ElectionTrigger
@@ -415,8 +417,8 @@ func (t *SimTrigger) disarm() {
 }
 
 func (t *SimTrigger) timeout(view uint64) time.Duration {
-	// base*2^view, saturating at about 13 days of simulated time
-	const sat = time.Duration(1) << 50
+	// base*2^view, saturating at about 9 years of simulated time
+	const sat = simTimeoutCap
 	base := t.n.timerBase
 	if view >= 40 {
 		return sat
